@@ -83,6 +83,15 @@ type sessionReq struct {
 	Transport string     `json:"transport"`
 	Proto     string     `json:"proto"`
 	Calls     []callSpec `json:"calls"`
+	// Burst: indices into Calls that are made again, all at once, from one goroutine each through the same
+	// client (several calls in flight on one transport), BurstRounds times
+	Burst       []int `json:"burst"`
+	BurstRounds int   `json:"burst_rounds"`
+}
+
+type burstOutcome struct {
+	v interface{}
+	e error
 }
 
 type invocation struct {
@@ -100,6 +109,8 @@ type recorder struct {
 	replies  [][]byte
 	script   func(service, method string) (interface{}, error)
 	finished chan struct{}
+	burst    map[string]burstOutcome // by the request header "c03-burst"
+	burstLog map[string][]invocation
 }
 
 func (r *recorder) reset(script func(service, method string) (interface{}, error)) {
@@ -619,6 +630,12 @@ func session(reg *labdriver.Registry, raw json.RawMessage) interface{} {
 			inv.Args = append(inv.Args, reg.Dump(reflect.ValueOf(a)))
 		}
 		rec.mu.Lock()
+		if tag, ok := fctx.RequestHeaders()["c03-burst"]; ok && rec.burst != nil {
+			bo := rec.burst[tag]
+			rec.burstLog[tag] = append(rec.burstLog[tag], inv)
+			rec.mu.Unlock()
+			return bo.v, bo.e
+		}
 		rec.handler = append(rec.handler, inv)
 		script := rec.script
 		rec.mu.Unlock()
@@ -655,7 +672,159 @@ func session(reg *labdriver.Registry, raw json.RawMessage) interface{} {
 	for _, c := range q.Calls {
 		results = append(results, oneCall(reg, rec, lk, std, mem, client, c))
 	}
-	return labdriver.Resp{"code": 0, "calls": results}
+	out := labdriver.Resp{"code": 0, "calls": results}
+	if len(q.Burst) > 0 {
+		out["burst"] = burst(reg, rec, client, q)
+	}
+	return out
+}
+
+// burst makes the chosen calls again, concurrently, through the one client
+func burst(reg *labdriver.Registry, rec *recorder, client reflect.Value, q sessionReq) []interface{} {
+	type prepared struct {
+		tag  string
+		idx  int
+		m    reflect.Value
+		in   []reflect.Value
+		fctx frugal.FContext
+	}
+	res := []interface{}{}
+	rounds := q.BurstRounds
+	if rounds <= 0 {
+		rounds = 1
+	}
+	for round := 0; round < rounds; round++ {
+		rec.mu.Lock()
+		rec.burst, rec.burstLog = map[string]burstOutcome{}, map[string][]invocation{}
+		rec.mu.Unlock()
+		var ps []prepared
+		for _, idx := range q.Burst {
+			if idx < 0 || idx >= len(q.Calls) {
+				continue
+			}
+			c := q.Calls[idx]
+			m, in, retv, rete, fctx, perr := prepareCall(reg, client, c)
+			if perr != "" {
+				continue
+			}
+			tag := fmt.Sprintf("%d/%d", round, idx)
+			fctx.AddRequestHeader("c03-burst", tag)
+			rec.mu.Lock()
+			rec.burst[tag] = burstOutcome{retv, rete}
+			rec.mu.Unlock()
+			ps = append(ps, prepared{tag, idx, m, in, fctx})
+		}
+		outs := make([]map[string]interface{}, len(ps))
+		var wg sync.WaitGroup
+		start := make(chan struct{})
+		for i := range ps {
+			wg.Add(1)
+			go func(i int) {
+				defer wg.Done()
+				o := map[string]interface{}{"index": ps[i].idx, "round": round}
+				outs[i] = o
+				defer func() {
+					if p := recover(); p != nil {
+						o["client"] = map[string]interface{}{"kind": "panic", "msg": hex.EncodeToString([]byte(fmt.Sprint(p)))}
+					}
+				}()
+				<-start
+				rets := ps[i].m.Call(ps[i].in)
+				var cerr error
+				if e := rets[len(rets)-1]; !e.IsNil() {
+					cerr = e.Interface().(error)
+				}
+				if cerr != nil {
+					o["client"] = classifyErr(reg, cerr)
+				} else if len(rets) == 2 {
+					o["client"] = map[string]interface{}{"kind": "ret", "value": reg.Dump(rets[0])}
+				} else {
+					o["client"] = map[string]interface{}{"kind": "ret", "value": nil}
+				}
+				o["resp_headers"] = hexMap(ps[i].fctx.ResponseHeaders())
+				o["opid"] = ps[i].fctx.RequestHeaders()["_opid"]
+			}(i)
+		}
+		close(start)
+		wg.Wait()
+		rec.mu.Lock()
+		for i := range ps {
+			hs := rec.burstLog[ps[i].tag]
+			if hs == nil {
+				hs = []invocation{}
+			}
+			outs[i]["handler"] = hs
+		}
+		rec.burst = nil
+		rec.mu.Unlock()
+		for _, o := range outs {
+			res = append(res, o)
+		}
+	}
+	return res
+}
+
+// prepareCall builds the reflected method, its arguments and the handler's scripted outcome for one call
+func prepareCall(reg *labdriver.Registry, client reflect.Value, c callSpec) (m reflect.Value, in []reflect.Value,
+	retv interface{}, rete error, fctx frugal.FContext, perr string) {
+	m = client.MethodByName(c.Method)
+	if !m.IsValid() {
+		perr = "no client method " + c.Method
+		return
+	}
+	mt := m.Type()
+	if mt.NumIn() != len(c.Args)+1 {
+		perr = "arity"
+		return
+	}
+	fctx = frugal.NewFContext("c03")
+	fctx.SetTimeout(2 * time.Second)
+	for k, v := range c.Headers {
+		kb, _ := hex.DecodeString(k)
+		vb, _ := hex.DecodeString(v)
+		fctx.AddRequestHeader(string(kb), string(vb))
+	}
+	in = []reflect.Value{reflect.ValueOf(fctx)}
+	for i, a := range c.Args {
+		v, err := reg.Build(mt.In(i+1), a)
+		if err != nil {
+			perr = err.Error()
+			return
+		}
+		in = append(in, v)
+	}
+	switch c.Outcome.Kind {
+	case "ret":
+		if mt.NumOut() == 2 {
+			v, err := reg.Build(mt.Out(0), c.Outcome.Value)
+			if err != nil {
+				perr = err.Error()
+				return
+			}
+			retv = v.Interface()
+		}
+	case "declared":
+		s, err := reg.BuildStruct(c.Outcome.Exc, c.Outcome.Value)
+		if err != nil {
+			perr = err.Error()
+			return
+		}
+		e, ok := s.(error)
+		if !ok {
+			perr = "not an error"
+			return
+		}
+		rete = e
+	case "other":
+		b, _ := hex.DecodeString(c.Outcome.Msg)
+		rete = fmt.Errorf("%s", string(b))
+	case "appexc":
+		b, _ := hex.DecodeString(c.Outcome.Msg)
+		rete = thrift.NewTApplicationException(c.Outcome.Type, string(b))
+	default:
+		perr = "unknown outcome kind"
+	}
+	return
 }
 
 func oneCall(reg *labdriver.Registry, rec *recorder, lk link, std *frugal.FStandardClient, mem *memTransport,
